@@ -51,7 +51,7 @@ ASSUMPTIONS = [
     "tasks are atomic",
 ]
 EXPECTED_PROBES = [
-    "state_chunked+pointers", "state_chunked-unified", "state_contiguous-after-unify", "step_after_layout_change", "copy_ctor", "class_form",
+    "several_live_objects", "state_chunked+pointers", "state_chunked-unified", "state_contiguous-after-unify", "step_after_layout_change", "copy_ctor", "class_form",
     "failing_call", "transition_unify_keep_chunked", "transition_unify_full",
 ]
 
@@ -136,9 +136,14 @@ def gen_step(s: Choices, ds, tier, early=False):
             fam2 = next(f for f, names in ops.FAMILIES.items() if want in names)
             for _ in range(1):
                 op = ops.gen_op(_Forced(s, ops.FAMILIES[fam2].index(want)), fam2, ds)
-        return {"kind": kind, "op": op}
+        step = {"kind": kind, "op": op, "target": s.draw(4)}
+        if kind == "class_form":
+            # sometimes on a second key array of the same length (reversed rows): anything the
+            # class form remembers between calls must not leak from one key array to another
+            step["alt"] = s.chance(1, 4)
+        return step
     if kind == "copy_ctor":
-        return {"kind": "copy_ctor"}
+        return {"kind": "copy_ctor", "target": s.draw(4)}
     fk = s.weighted([(2, "short_values"), (2, "long_values"), (2, "bad_mask_len"), (2, "user_func_raises")])
     if fk == "user_func_raises":
         op = {"op": "apply", "cols": [0], "transform": False, "mask": {"kind": "none"}, "func": "raises"}
@@ -341,14 +346,22 @@ def execute(sc, sched: Choices, cls, cfg):
     states.add(prev_state)
     probes.add(f"state_{layout0}")
 
+    # the original and every copy made so far stay alive and in use: a copy that shares
+    # mutable state with its original shows when *either* is used afterwards
+    objs = [reused]
+    obj_prev_state = {0: prev_state}
     for si, step in enumerate(steps):
         kind = step["kind"]
+        ti = step.get("target", 0) % len(objs)
+        reused = objs[ti]
+        prev_state = obj_prev_state[ti]
         if kind == "copy_ctor":
             probes.add("copy_ctor")
             ctx = new_ctx()
             with executor.use_context(ctx):
                 try:
-                    reused = GroupBy(reused)
+                    objs.append(GroupBy(reused))
+                    obj_prev_state[len(objs) - 1] = prev_state
                     err = None
                 except Exception as e:  # noqa: BLE001
                     err = e
@@ -378,7 +391,12 @@ def execute(sc, sched: Choices, cls, cfg):
         ctxm = new_ctx()
         with executor.use_context(ctxm):
             if kind == "class_form":
-                model = _outcome(lambda: _step_call(GroupBy(gen.build_keys(ds, lay)), dict(step, kind="op"), ds, lay, client=client))
+                ck = ("keys", bool(step.get("alt")))
+                if ck not in client:
+                    dsk = dict(ds, key_codes=[list(reversed(kc)) for kc in ds["key_codes"]]) if step.get("alt") else ds
+                    client[ck] = gen.build_keys(dsk, lay)
+                class_keys = client[ck]
+                model = _outcome(lambda: _step_call(GroupBy(class_keys), dict(step, kind="op"), ds, lay, client=client))
             else:
                 model = _outcome(lambda: _step_call(construct(), step, ds, lay, client=client))
         account(ctxm)
@@ -388,7 +406,7 @@ def execute(sc, sched: Choices, cls, cfg):
         layout_before = _layout_of(reused)
         with executor.use_context(ctxr):
             if kind == "class_form":
-                got = _outcome(lambda: _step_call(None, step, ds, lay, class_keys=gen.build_keys(ds, lay), client=client))
+                got = _outcome(lambda: _step_call(None, step, ds, lay, class_keys=class_keys, client=client))
             else:
                 got = _outcome(lambda: _step_call(reused, step, ds, lay, client=client))
         account(ctxr)
@@ -416,6 +434,9 @@ def execute(sc, sched: Choices, cls, cfg):
         if changed and layout_changed_at is None and (layout_after != layout_before or state[1] != prev_state[1]):
             layout_changed_at = si
         prev_state = state
+        obj_prev_state[ti] = state
+        if len(objs) > 1:
+            probes.add("several_live_objects")
 
         site = {"property": PROP, "op": opname, "step_kind": kind}
         features = {
